@@ -464,6 +464,36 @@ theorem sh2_hull_sound (hs : List HP) (poly : List Pt) (hc : ConvexCCW poly) (X 
     rw [hsum] at this
     simp only [HP.eval]; linarith
 
+/-! ### the hypotheses as decidable input conditions (evaluated by the driver on every case) -/
+
+theorem convexCCWb_iff (poly : List Pt) : convexCCWb poly = true ↔ ConvexCCW poly := by
+  simp [convexCCWb, ConvexCCW, InPoly, List.all_eq_true]
+
+/-- clockwise input: `halfPlanes` reverses the vertex order first -/
+theorem inRegion_halfPlanes_cw (poly : List Pt) (hcw : area2 poly < 0) (X : Pt) :
+    InRegion (halfPlanes poly) X ↔ InPoly poly.reverse X := by
+  unfold InRegion halfPlanes InPoly
+  simp only [hcw, if_true, List.mem_map, forall_exists_index, and_imp, forall_apply_eq_imp_iff₂,
+    halfplane_is_left_of_edge, leftOf]
+  constructor <;> intro h e he <;> have := h e he <;> linarith
+
+/-- the property for a convex polygon given by its vertices (counter-clockwise): the returned
+    interval is exactly the set of parameters of the points of the segment in the polygon -/
+theorem clip_convex_polygon_exact (poly : List Pt) (hccw : ¬ area2 poly < 0) (s : Seg) (t : Rat) :
+    inIv (clipConvex (halfPlanes poly) s) t ↔ (0 ≤ t ∧ t ≤ 1 ∧ InPoly poly (s.at t)) := by
+  rw [clip_convex_exact, inRegion_halfPlanes_iff poly hccw]
+
+/-- the property for the 3d clipping with the convexity hypothesis in decidable form: if the driver's
+    test `convexCCWb` succeeds on the plane coordinates of the polygon, the clipped polygon contains
+    every point of the polygon lying in all half-spaces and consists of such points only -/
+theorem sh_clip_complete_decidable (O U V : P3) (hs : List HS) (poly : List Pt)
+    (hb : convexCCWb poly = true) :
+    ∃ out : List Pt, shClip hs (poly.map (embed O U V)) = out.map (embed O U V) ∧ convexCCWb out = true ∧
+      (∀ p, InPoly poly p → (∀ h ∈ hs, h.eval (embed O U V p) ≤ 0) → InPoly out p) ∧
+      (∀ q ∈ out, InPoly poly q ∧ ∀ h ∈ hs, h.eval (embed O U V q) ≤ 0) := by
+  obtain ⟨out, h1, h2, h3, h4⟩ := sh_clip_complete_planar O U V hs poly ((convexCCWb_iff poly).mp hb)
+  exact ⟨out, h1, (convexCCWb_iff out).mpr h2, h3, h4⟩
+
 /-! ### non-vacuity: concrete data for every theorem -/
 
 section Examples
@@ -513,6 +543,11 @@ example : shClip12 ⟨1, 0, 1⟩ sq = [⟨0, 0⟩, ⟨1, 0⟩, ⟨1, 2⟩, ⟨0,
 -- a point of the segment through the notch of the U is inside exactly on the returned pieces
 example : insideAlong ⟨⟨-1, 2⟩, ⟨4, 2⟩⟩ (edges uShape) (3 / 10) = true := by decide +kernel
 example : insideAlong ⟨⟨-1, 2⟩, ⟨4, 2⟩⟩ (edges uShape) (1 / 2) = false := by decide +kernel
+
+example : convexCCWb sq = true := by decide +kernel
+example : convexCCWb sqCW = false ∧ convexCCWb (ccwOrder sqCW) = true := by decide +kernel
+example : convexCCWb lShape = false ∧ convexCCWb lShape.reverse = false := by decide +kernel
+example : area2 sqCW < 0 := by decide +kernel
 
 end Examples
 
